@@ -32,4 +32,11 @@ TEXT["C17"] = dict(level_text=_EXP_LEVEL % "the C17 inequality (r -+ (1/2+1e-20)
 TEXT["C18"] = dict(level_text=_EXP_LEVEL % "the shortcut ladder is exact (PowLadder, checked exhaustively on a small format); the general path uses the enclosure of e^(y ln x) with a driver-supplied, spec-certified witness for ln x and C18's error budget.",
                    level_note=_ARITH_NOTE + " The ln x witness is untrusted: it is certified by the enclosure before use, otherwise the step is undecided.",
                    design_ref="DESIGN.md §6 C18", technique="TLA+ PowLadder + enclosure oracle + TLC trace validation of recorded real calls")
+TEXT["C20"] = dict(level_text="Exploration: every entry point is called on raw random bit patterns and extreme scalars (precision/width 100000, "
+                   "MinInt exponents, 64k-digit strings, arbitrary format specs), each call twice (determinism), with the documented panics as the "
+                   "only accepted ones; then shuffled copies of pure calls run from 8-64 goroutines on shared operands in a -race build and every "
+                   "concurrent result must equal the sequential one; TLC validates every recorded step against the specification. The design "
+                   "(shared mode read at call begin, all interleavings) is model-checked exhaustively in MC_Conc with a negative control.",
+                   level_note="Freedom from data races is observed by the Go race detector on the recorded executions (instrumentation on the implementation side of the binding); interleavings of the real code are sampled, not enumerated: the library has no synchronisation points at which a scheduler gate could be placed.",
+                   design_ref="DESIGN.md §6 C20", technique="TLC-exhaustive interleaving model (MC_Conc) + TLC trace validation of sequential and concurrent recorded calls (race-detector build)")
 NOT_APPLICABLE = []
